@@ -128,6 +128,7 @@ type Contract struct {
 	Safety       string   // "on" / "off" / ""
 	Pure         bool     // declared to have no heap effect at all (stronger than modifies nothing: also for loops' havoc)
 	Assumed      bool     // contract of a repository function that is used by callers but not (yet) verified
+	Bounded      []string // bounded stand-in drivers: "<driver> <stated bound ...>"
 	Fresh        []string // results that are freshly allocated objects when non-nil
 	WrapOK       bool     // integer arithmetic in this function wraps by design (hash-like code): no overflow obligations
 	FuncValue    bool     // contract of a function value (fnvalue): parameters only, no receiver
